@@ -292,18 +292,81 @@ def gen_file(rng, nblocks=None, name=None, tag=None):
             "tail2": [rword(rng) for _ in range(4)]}
 
 
-def gen_stream(rng, with_sep=None):
-    """an event stream as handed to the C++ parser: events, each optionally preceded by a 4-word separator"""
-    o = W()
-    evs = []
-    for _ in range(rng.choice([1, 1, 2, 3])):
-        e = gen_event(rng)
-        evs.append(e)
+def gen_items(rng, with_sep=None, nev=None, small=False):
+    """an event stream as handed to the C++ parser: [(separator words (a,b,c) | None, event)]"""
+    items = []
+    for _ in range(rng.choice([1, 1, 2, 3]) if nev is None else nev):
+        e = gen_event(rng, nsub=rng.choice([0, 1, 2, 3]) if small else None)
         sep = rng.random() < 0.5 if with_sep is None else with_sep
-        if sep:
-            o.put("sep.flag", DATA_SEP); o.put("sep.w1", rword(rng)); o.put("sep.w2", rword(rng)); o.put("sep.size", 4 * len(enc_event(e).w))
+        items.append(((rword(rng), rword(rng), rng.choice([4 * len(enc_event(e).w), rword(rng)])) if sep else None, e))
+    return items
+
+
+def enc_items(items):
+    o = W()
+    for sep, e in items:
+        if sep is not None:
+            o.put("sep.flag", DATA_SEP); o.put("sep.w1", sep[0]); o.put("sep.w2", sep[1]); o.put("sep.size", sep[2])
         o.ext(enc_event(e))
-    return evs, o
+    return o
+
+
+def gen_stream(rng, with_sep=None):
+    items = gen_items(rng, with_sep)
+    return [e for _, e in items], enc_items(items)
+
+
+def coq_items(items):
+    return "[" + ";\n ".join("(%s, %s)" % ("Some (%d, %d, %d)" % sep if sep is not None else "None", coq_event(e)) for sep, e in items) + "]"
+
+
+# ------------------------------------------------------------------------------------------------ direct Python statement
+# of what a stream means (used only by the failing-input searches; the checked specification is the Gallina one)
+
+
+def _merge(words, idf, tqf, sigf, ovf):
+    m = {}
+    for w in words:
+        v = m.setdefault(idf(w), [0, 0, 0])
+        v[tqf(w)] = sigf(w)
+        v[2] |= ovf(w)
+    return [[k] + m[k] for k in sorted(m)]
+
+
+def py_rows(det, words):
+    if det == "mdc":
+        return _merge(words, lambda w: w >> 18 & 0x3FFF, lambda w: w >> 17 & 1, lambda w: w & 0xFFFF, lambda w: w >> 16 & 1)
+    if det == "tof":
+        return _merge(words, lambda w: w >> 21 & 0x3FF, lambda w: w >> 20 & 1, lambda w: w & 0x7FFF, lambda w: w >> 19 & 1)
+    if det == "emc":
+        return [[w >> 19 & 0x1FFF, w >> 13 & 0x3F, w & 0x7FF, w >> 11 & 3] for w in words]
+    if det == "muc":
+        return [[w >> 16 & 0x7FF, w & 0xFFFF] for w in words]
+    return [[w] for w in words]
+
+
+def py_columnar(dets, events):
+    """dets: names in any order; result in canonical form (set order)"""
+    hdr = [list(e["hdr"]) + list(e["tags"]) for e in events]
+    out = []
+    for d in SET_ORDER:
+        if d not in dets:
+            continue
+        offs, rows = [0], []
+        for e in events:
+            for s in e["subs"]:
+                if (s["src"] >> 16) & 0xFFFF == DET_ID[d] and "ros" in s:
+                    for r in s["ros"]:
+                        for b in r["robs"]:
+                            rows += py_rows(d, b["data"])
+            offs.append(len(rows))
+        out.append([d, offs, rows])
+    return {"hdr": hdr, "dets": out}
+
+
+def mask_dets(mask):
+    ds = [d for i, d in enumerate(DETS) if mask >> i & 1]
+    return ds if ds else ["mdc", "tof", "emc", "muc"]
 
 
 # ------------------------------------------------------------------------------------------------ adversarial stream
